@@ -101,3 +101,11 @@ Theorem C12_suite_query_refreshes_members : forall O s f, SInv O s -> In f (func
   map content (body (fst (sstep O s (SG (GetFitnessFor f))))) = map content (body s).
 Proof. exact suite_query_refreshes_members. Qed.
 Print Assumptions C12_suite_query_refreshes_members.
+
+(* the verdict cached together with a freshly computed fitness value v is (v = 0), exactly *)
+Theorem C12_covered_verdict_is_fitness_zero : forall B R (run : B -> bool -> (B * bool) * R) F K C (o : cobj B) f,
+  has f (fit o) = false ->
+  exists v, lookup f (fit (one run F K C WFit o f)) = Some v /\
+            lookup f (isc (one run F K C WFit o f)) = Some (v =? 0).
+Proof. exact @fitness_verdict_exact. Qed.
+Print Assumptions C12_covered_verdict_is_fitness_zero.
